@@ -300,3 +300,15 @@ Definition optN_eqb (a b : option N) : bool :=
   match a, b with Some x, Some y => N.eqb x y | None, None => true | _, _ => false end.
 Definition json_yaml_float_agree (j y o : option N) : bool :=
   optN_eqb j y && match j with Some _ => optN_eqb j o | None => true end.
+
+(* whatever the route, a float member of a result is a finite number: never +Inf / -Inf / NaN (a value above
+   MaxFloat32 / MaxFloat64 must be rejected, not stored) *)
+Fixpoint val_finite (v : val) {struct v} : bool :=
+  match v with
+  | VFloat raw _ => negb (String.eqb raw "+Inf" || String.eqb raw "-Inf" || String.eqb raw "Inf" || String.eqb raw "NaN")
+  | VPtr v' => val_finite v'
+  | VSlice l => forallb (fun x => val_finite x) l
+  | VMap m => forallb (fun kv => val_finite (snd kv)) m
+  | VStruct l => forallb (fun x => val_finite x) l
+  | _ => true
+  end.
